@@ -133,9 +133,18 @@ func ZZ_C14_Subscribe() {
 	for i, n := range names {
 		sub.Topics = append(sub.Topics, packets.Topic{Name: n, SubOptions: packets.SubOptions{Qos: req[i]}})
 	}
+	// retained messages that the new subscriptions would replay, stored at the highest QoS
+	srv.retainedDB.AddOrReplace(&gmqtt.Message{Topic: "a", QoS: 2, Retained: true, Payload: []byte("ra")})
+	srv.retainedDB.AddOrReplace(&gmqtt.Message{Topic: "b/x", QoS: 2, Retained: true, Payload: []byte("rb")})
 	err := c.subscribeHandler(sub)
 	zzrt.Assert(err == nil, "subscribe-handled")
 	zzrt.Assert(calls == 1, "subscribe-hook-fires-exactly-once")
+	replayed := map[string]*gmqtt.Message{}
+	for _, e := range c.queueStore.(*zzRecQueue).added {
+		m := e.MessageWithID.(*queue.Publish).Message
+		replayed[m.Topic] = m
+	}
+	replayTopic := map[string]string{"a": "a", "b/+": "b/x"}
 	out := zzDrain(c)
 	zzrt.Assert(len(out) == 1, "one-suback")
 	ack := out[0].(*packets.Suback)
@@ -156,10 +165,16 @@ func ZZ_C14_Subscribe() {
 				zzrt.Assert(ack.Payload[i] == 0x80, "v3-suback-failure-is-0x80")
 			}
 			zzrt.Assert(len(stored) == 0, "rejected-subscription-not-installed")
+			zzrt.Assert(replayed[replayTopic[n]] == nil, "rejected-subscription-replays-no-retained-message")
 			zzrt.Cover("rejected")
 		} else {
 			zzrt.Assert(ack.Payload[i] == d.qos, "suback-reports-the-granted-possibly-downgraded-qos")
 			zzrt.Assert(len(stored) == 1 && stored[0].QoS == d.qos, "installed-with-the-granted-qos")
+			rm := replayed[replayTopic[n]]
+			zzrt.Assert(rm != nil, "installed-subscription-replays-the-retained-message")
+			if rm != nil {
+				zzrt.Assert(rm.QoS == d.qos, "retained-replay-capped-by-the-granted-qos")
+			}
 			zzrt.Cover("installed")
 		}
 	}
